@@ -15,6 +15,7 @@ import (
 	"fmt"
 	"os"
 	"regexp"
+	"sort"
 	"strings"
 
 	"ariga.io/atlas/sql/migrate"
@@ -155,7 +156,17 @@ func c16Scope(e *Env, pool *hx.Pool, r *hx.Rand, n int) {
 			sn := hx.Pick(r, []string{"", "s1", "s2", customQual})
 			s := schema.New(sn)
 			t := schema.NewTable(fmt.Sprintf("t%d", i)).SetSchema(s).AddColumns(schema.NewIntColumn("c", "int"))
-			switch r.Intn(8) {
+			en := &schema.EnumType{T: fmt.Sprintf("e%d", i), Values: []string{"a"}, Schema: s}
+			switch r.Intn(11) {
+			case 8:
+				changes = append(changes, &schema.AddObject{O: en})
+				abs = append(abs, map[string]any{"k": "object", "name": sn})
+			case 9:
+				changes = append(changes, &schema.DropObject{O: en})
+				abs = append(abs, map[string]any{"k": "object", "name": sn})
+			case 10:
+				changes = append(changes, &schema.ModifyObject{From: en, To: &schema.EnumType{T: en.T, Values: []string{"a", "b"}, Schema: s}})
+				abs = append(abs, map[string]any{"k": "object", "name": sn})
 			case 0:
 				changes = append(changes, &schema.AddSchema{S: s})
 				abs = append(abs, map[string]any{"k": "add_schema"})
@@ -261,6 +272,17 @@ func c16Marker(e *Env, c c16Case) {
 			{&schema.ModifyTable{T: t1, Changes: []schema.Change{&schema.DropForeignKey{F: d1.ForeignKeys[0]}}}},
 			{&schema.ModifyTable{T: t1, Changes: []schema.Change{&schema.ModifyForeignKey{From: d1.ForeignKeys[0], To: t1.ForeignKeys[0], Change: schema.ChangeDeleteAction}}}},
 		}
+		if c.Dialect == "postgres" {
+			// schema-level objects (enum types) added, dropped and extended on their own
+			free := &schema.EnumType{T: "en_free", Values: []string{"x", "y"}, Schema: s}
+			grown := &schema.EnumType{T: "en_free", Values: []string{"x", "y", "z"}, Schema: s}
+			opts = append(opts,
+				[]schema.Change{&schema.AddObject{O: free}},
+				[]schema.Change{&schema.DropObject{O: free}},
+				[]schema.Change{&schema.ModifyObject{From: free, To: grown}},
+				[]schema.Change{&schema.DropTable{T: t3}, &schema.DropObject{O: &schema.EnumType{T: "en_TBLC", Values: []string{"a", "b"}, Schema: s}}},
+			)
+		}
 		if t1.Attrs != nil {
 			opts = append(opts, []schema.Change{&schema.ModifyTable{T: t1, Changes: []schema.Change{&schema.ModifyAttr{From: &schema.Comment{Text: "comment on TBLA"}, To: &schema.Comment{Text: "new comment"}}}}})
 		}
@@ -312,7 +334,37 @@ func c16Marker(e *Env, c c16Case) {
 	}
 	if c.TwoSch && c.Qual != "unset" {
 		if err == nil {
-			e.Res.Violate("failing-input", "two-schemas-not-rejected", fmt.Sprintf("%s: a change set spanning %s and %s was planned under qualifier %q", c.Dialect, markerSchema, otherSchema, c.Qual), "Props.C16.scope_rejects_two_schemas", replay)
+			// the schemas of the table changes / of the stand-alone enum changes
+			tabs, objs := map[string]bool{}, map[string]bool{}
+			for _, ch := range changes {
+				switch ch := ch.(type) {
+				case *schema.AddTable:
+					tabs[ch.T.Schema.Name] = true
+				case *schema.DropTable:
+					tabs[ch.T.Schema.Name] = true
+				case *schema.ModifyTable:
+					tabs[ch.T.Schema.Name] = true
+				case *schema.RenameTable:
+					tabs[ch.From.Schema.Name] = true
+				case *schema.ModifySchema:
+					tabs[ch.S.Name] = true
+				case *schema.AddObject:
+					objs[ch.O.(*schema.EnumType).Schema.Name] = true
+				case *schema.DropObject:
+					objs[ch.O.(*schema.EnumType).Schema.Name] = true
+				case *schema.ModifyObject:
+					objs[ch.To.(*schema.EnumType).Schema.Name] = true
+				}
+			}
+			if len(tabs) > 1 {
+				e.Res.Violate("failing-input", "two-schemas-not-rejected", fmt.Sprintf("%s: a change set with table changes in %s and %s was planned under qualifier %q", c.Dialect, markerSchema, otherSchema, c.Qual), "Props.C16.scope_rejects_two_schemas", replay)
+			} else {
+				var all []string
+				for _, ch := range plan.Changes {
+					all = append(all, ch.Cmd)
+				}
+				e.Res.Violate("failing-input", "enum-schema-not-scoped", fmt.Sprintf("%s: a change set with enum type changes in %v and table changes in %v was planned under qualifier %q: %s", c.Dialect, keys(objs), keys(tabs), c.Qual, trunc(strings.Join(all, "; "), 300)), "Props.C16.object_schema_not_counted", replay)
+			}
 		}
 		return
 	}
@@ -328,7 +380,7 @@ func c16Marker(e *Env, c c16Case) {
 		return
 	}
 	tables := []string{"TBLA", "TBLB", "TBLC", "TBLR"}
-	types := []string{"en_TBLA", "en_TBLB", "en_TBLC"}
+	types := []string{"en_TBLA", "en_TBLB", "en_TBLC", "en_free"}
 	check := func(stmt, where string) bool {
 		ids := splitIdents(stmt, qb)
 		for _, id := range ids {
@@ -422,6 +474,15 @@ func runC16(e *Env) error {
 			Mode: hx.Pick(r, []int{0, 1, 2, 3, 4}), Seed: r.Uint64(), TwoSch: r.Chance(1, 6)}
 	}
 	parallel(e.Workers, len(cases), func(i int) { c16Marker(e, cases[i]) })
-	e.Res.Rule = fmt.Sprintf("(A) 5x5 schema-name pairs x 3 qualifiers x {Table, TableColumn, TableResource(index), SchemaResource, RefTable} of the real Builder vs the model; (B) %d random change lists (AddSchema/DropSchema/ModifySchema/Add|Modify|DropTable in 4 schema names) x qualifier x mode for CheckChangesScope vs the model; (C) %d marker cases: 1-3 change groups out of {create, drop, add column+index, drop index, add fk, drop fk, rename table, rename column, rename index, modify column, modify comment, drop/modify of a from-state foreign key whose tables live in a differently named (dev) schema, a schema attribute change (must be refused outside in-place mode)}, PostgreSQL enums, optional second schema, x {mysql, postgres} x qualifier {unset, empty, custom} x mode {unset, in-place, deferred, dump, unsorted dump}; non-trivial = a qualifier was requested; distinct by the whole case", ns, nm)
+	e.Res.Rule = fmt.Sprintf("(A) 5x5 schema-name pairs x 3 qualifiers x {Table, TableColumn, TableResource(index), SchemaResource, RefTable} of the real Builder vs the model; (B) %d random change lists (AddSchema/DropSchema/ModifySchema/Add|Modify|Drop|RenameTable/Add|Drop|ModifyObject of an enum, in 4 schema names) x qualifier x mode for CheckChangesScope vs the model; (C) %d marker cases: 1-3 change groups out of {create, drop, add column+index, drop index, add fk, drop fk, rename table, rename column, rename index, modify column, modify comment, PostgreSQL add/drop/extend of a stand-alone enum type, drop/modify of a from-state foreign key whose tables live in a differently named (dev) schema, a schema attribute change (must be refused outside in-place mode)}, PostgreSQL enums, optional second schema, x {mysql, postgres} x qualifier {unset, empty, custom} x mode {unset, in-place, deferred, dump, unsorted dump}; non-trivial = a qualifier was requested; distinct by the whole case", ns, nm)
 	return nil
+}
+
+func keys(m map[string]bool) []string {
+	out := make([]string, 0, len(m))
+	for k := range m {
+		out = append(out, k)
+	}
+	sort.Strings(out)
+	return out
 }
